@@ -103,7 +103,7 @@ def main():
         ],
         "checks": checks,
         "not_applicable": na,
-        "notes": "Technique family: solver-based checking of the real code. DESIGN.md section 7 describes the framework as built, sections 7.7-7.9 which check catches which of the 92 seeded changes kept under seeded/. Exit codes: 0 = every obligation discharged (KNOWN-FINDING lines possible), 1 = VIOLATION (a counterexample replayed concretely against the real code; the run stops at the first confirmed one), 2 = HARNESS-ERROR: inconclusive obligation, non-reproducing counterexample or stand-in validation failure (never reported as success or as a violation). VERIF_REPO=<dir> makes a check analyse another working tree of the repository (used by tools_seeded.py); VERIF_JOBS limits the worker processes.",
+        "notes": "Technique family: solver-based checking of the real code. DESIGN.md section 7 describes the framework as built, sections 7.7-7.10 which check catches which of the 112 seeded changes kept under seeded/. Exit codes: 0 = every obligation discharged (KNOWN-FINDING lines possible), 1 = VIOLATION (a counterexample replayed concretely against the real code; the run stops at the first confirmed one), 2 = HARNESS-ERROR: inconclusive obligation, non-reproducing counterexample or stand-in validation failure (never reported as success or as a violation). VERIF_REPO=<dir> makes a check analyse another working tree of the repository (used by tools_seeded.py); VERIF_JOBS limits the worker processes.",
     }
     json.dump(man, open(os.path.join(ROOT, "MANIFEST.json"), "w"), indent=1)
     import jsonschema
